@@ -17,6 +17,7 @@
    Stack node whose nil runs are shorter than the limit shows exactly its
    former non-nil elements in order, each compacted the same way, Err() nil. *)
 From Stackage Require Import Base Values Generated StackImpl Defrag DefragSpec DefragSpecCorr DefragProofs DefragKf.
+From Stackage Require Import DefragTie.
 Open Scope Z_scope.
 
 (* ---- every list of elements, every limit, every index option ---- *)
@@ -262,6 +263,53 @@ Print Assumptions c19_fwdidx_refuted.
 (* the hypotheses of c19_Defrag_correct / c19_Defrag_meets are satisfiable by
    a tree that is not trivial: three levels, a Condition in between, nil
    elements in every Stack; the model run (inside Coq) compacts all of them *)
+
+(* The loops of the model ARE the loops of the source: one iteration of
+   stack.implode, one iteration of stack.verifyImplode and the guard of
+   stack.defrag after its scan loop are regenerated from /repo on every run
+   (translator T1: the loop headers and everything around the loops are
+   checked, what each cut point goes on to do is pinned as text), and the
+   model's iterations are these decision trees - for every slice, pattern,
+   scan limit and counter value within Go's int range. *)
+Theorem c19_model_loops_are_the_source_loops :
+  (forall (V : Type) (nilv : V) (isnil : V -> bool) (f : nat) (max : Z) (r : list V) (start ct : Z) (tpat : list Z),
+     in_i64 (start + ct) -> in_i64 (ct + 1) ->
+     implode_loop V nilv isnil (S f) max r start ct tpat =
+     match g_implode_iter (rulen V r) false ct start max with
+     | TCut 0 _ _ => Ok (r, tpat)
+     | _ =>
+         do x <- raw_get V r (start + ct + 1);
+         match g_implode_iter (rulen V r) (isnil x) ct start max with
+         | TCut 1 [s; c] _ => implode_loop V nilv isnil f max r s c tpat
+         | TCut 2 _ _ =>
+             do r1 <- raw_set V r (start + 1) x;
+             do tpat1 <- pat_set tpat (start + ct) 1;
+             do r2 <- raw_set V r1 (start + ct + 1) nilv;
+             implode_loop V nilv isnil f max r2 (start + 1) 0 tpat1
+         | _ => Unmodelled
+         end
+     end) /\
+  (forall (i : nat) (is' : list nat) (spat tpat : list Z) (dlen last : Z) (fail : bool),
+     in_i64 (dlen + Z.of_nat i) -> in_i64 (dlen + Z.of_nat i - zlen tpat) ->
+     verify_loop (i :: is') spat tpat dlen last fail =
+     do s <- pat_get spat (Z.of_nat i);
+     do t <- pat_get tpat (Z.of_nat i);
+     match g_verify_iter (s =? t) (negb (t =? 0)) dlen (zlen tpat) (Z.of_nat i) last with
+     | TRet [l] [fl] => verify_loop is' spat tpat (dlen + 1) l fl
+     | _ => Unmodelled
+     end) /\
+  (forall start max : Z,
+     g_defrag_after start max =
+     if negb ((start =? -1) || (max <=? start)) then TCut 0 [] [true] else TRet [] [true]) /\
+  g_implode_iter_tails =
+    ["break"%string; "continue"%string;
+     "(*r)[start+1] = (*r)[start+ct+1]; tpat[start+ct] = 1; (*r)[start+ct+1] = nil; start = start + 1; ct = 0"%string].
+Proof.
+  split; [exact implode_iteration|]. split; [exact verify_iteration|].
+  split; [exact defrag_guard|exact implode_cut_tails].
+Qed.
+Print Assumptions c19_model_loops_are_the_source_loops.
+
 Example c19_good_tree_exists :
   c19_input good_example = true /\ tree_good (scan_limit []) good_example = true /\
   nonil_tree good_example = false /\
